@@ -680,6 +680,7 @@ func main() {
 		for _, l := range hx.ReadLines(os.Args[2]) {
 			out.Obs(runCase(l))
 		}
+		out.Retry(runCase) // a case that ran out of time in this pass is re-run alone with 10x deadlines
 		out.Close()
 		return
 	}
@@ -1027,5 +1028,6 @@ func main() {
 		emit("LP", "GMX509KeyPairs", x.c, x.k, enc.c, enc.k)
 		emit("LP", "GMX509KeyPairs", cb(0), kb("PRIVATE_KEY", 0), x.c, x.k)
 	}
+	out.Retry(runCase) // a case that ran out of time in this pass is re-run alone with 10x deadlines
 	out.Close()
 }
